@@ -75,6 +75,7 @@ type FV struct {
 	implUsed map[string]types.Type // interface name -> type
 	sliceElems map[string]string
 	guardsOK   int
+	curBinds   []SymVal
 	pendingForks []*State
 	typeFactsCache string
 	typeFactsDone  bool
